@@ -1,16 +1,78 @@
 (* Properties/C07.v — Close and cancellation stop PBF/XML scans promptly, cleanly and race-free.
 
-   Statements only; proofs are in Pipeline/Proofs*.v.  The PBF pipeline model is
-   Pipeline/Model.v (an interleaving LTS of decode.go/scanner.go), the XML scanner is the
-   sequential machine of Pipeline/Exec.v. *)
+   Statements only; proofs are in Pipeline/Proofs*.v.  The PBF pipeline is the interleaving LTS of
+   Pipeline/Model.v (decode.go Start/Next/Close + scanner.go; [reach c s] = s is reachable from
+   [init c] by ANY sequence of enabled steps: every interleaving of reader, workers, serializer,
+   consumer and API calls, every resolution of every select).  [current c] selects the code as it
+   is now; the variant flags off give the original code, for which the *_refuted witnesses hold.
+   The XML scanner is the sequential machine of Pipeline/Exec.v.
+
+   Partial (DESIGN.md section 7): the model is sequentially consistent over its atomic steps; a
+   data race in the Go memory model cannot be exhibited by a theorem.  The one unsynchronised
+   access pair of the original code (serializer writing cData.Err, consumer reading/writing cData)
+   is modelled as interleaved writes: C07_err_lost_refuted shows its sequentially consistent
+   consequence, the repaired code no longer has the access, and the thorough tier runs the
+   harness under the race detector. *)
 From Coq Require Import ZArith List Bool Arith Lia.
-From Verif Require Import Pipeline.Model Pipeline.Exec Pipeline.ProofsXml.
+From Verif Require Import Pipeline.Model Pipeline.Exec Pipeline.ProofsBasic Pipeline.ProofsXml Pipeline.Witness.
 Import ListNotations.
+
+(* ---- 1. "returns without consuming the rest of the input" ---- *)
+(* at most one further block read starts after the internal context is cancelled (Close, a
+   cancelled parent context, or the serializer's own exit), for every n, input and schedule *)
+Theorem C07_bounded_read_ahead : forall c s, c_and c = true -> reach c s -> rac s <= 1.
+Proof. exact bounded_read_ahead. Qed.
+Print Assumptions C07_bounded_read_ahead.
+
+(* FALSE for the original loop condition  ctx.Err() == nil || err == nil : after Close the reader
+   goroutine reads the whole remaining input (here: 5 blocks and the EOF).  Replayed on the real
+   code by harness/cmd/c07 (counting reader: up to 146 reads after the cancel); fixed in 687d55c. *)
+Theorem C07_bounded_read_ahead_refuted :
+  exists c sched, wf_cfg c = true /\ c_and c = false /\ rac (fst (run c sched (init c))) = 6.
+Proof. exists cfg_or, sched_close_first. vm_compute. repeat split. Qed.
+Print Assumptions C07_bounded_read_ahead_refuted.
+
+(* ---- 2. "every later Scan returns false" ---- *)
+Theorem C07_close_scan_false : forall c s s' o, step c (LApi CScan) s = Some (s', o) ->
+  closed s = true \/ pcancelled s = true ->
+  o = [OScan false 0%Z] /\ c_pc s' = CIdle /\ delivered s' = delivered s.
+Proof. exact scan_after_stop_false. Qed.
+Print Assumptions C07_close_scan_false.
+
+(* Close and cancellation are permanent *)
+Theorem C07_stop_is_permanent : forall c l s s' o, step c l s = Some (s', o) ->
+  (cancelled s = true -> cancelled s' = true) /\ (closed s = true -> closed s' = true) /\
+  (pcancelled s = true -> pcancelled s' = true).
+Proof. intros c l s s' o H. destruct (step_flags_mono c l s s' o H) as (A & B & C & _). auto. Qed.
+Print Assumptions C07_stop_is_permanent.
+
+(* when the stops are issued by the scanning goroutine, no step whatsoever produces a successful
+   Scan after the stop *)
+Theorem C07_no_true_scan_after_self_stop : forall c l s s' o, reach c s -> step c l s = Some (s', o) ->
+  third s' = false -> (closed s = true \/ pcancelled s = true) ->
+  forallb (fun x => negb (scan_true x)) o = true.
+Proof. exact no_true_scan_after_self_stop. Qed.
+Print Assumptions C07_no_true_scan_after_self_stop.
+
+(* ---- 3. Err: nil only after a complete scan ---- *)
+(* FALSE for the original Next/serializer when another goroutine cancels while Scan is blocked:
+   Scan returns false, Err() returns nil, one of two objects was delivered.  Replayed on the real
+   code by harness/cmd/c07 (mode 1 histories); fixed in 1677bc6. *)
+Theorem C07_err_lost_refuted :
+  exists c sched, wf_cfg c = true /\ c_nextctx c = false /\
+    let s := fst (run c sched (init c)) in
+    err_value s = 0%Z /\ pcancelled s = true /\ delivered s <> expected (c_inp c).
+Proof. exists cfg_lost, sched_lost. vm_compute. repeat split; discriminate. Qed.
+Print Assumptions C07_err_lost_refuted.
+
+Example C07_err_kept_now :
+  let s := fst lost_run_now in err_value s = eCtx /\ snd lost_run_now = [OScan true 1%Z; OScan false 0%Z; OErr eCtx].
+Proof. vm_compute. split; reflexivity. Qed.
 
 (* ---- XML scanner ---- *)
 Theorem C07_xml_close_scan_false : forall a x h,
   (a = CCloseCall \/ a = CCancel \/ a = CCancel3) ->
-  forallb (fun o => negb (scan_true o)) (concat (snd (xrun h (fst (xstep a x))))) = true.
+  forallb (fun o => negb (ProofsXml.scan_true o)) (concat (snd (xrun h (fst (xstep a x))))) = true.
 Proof. exact xml_stop_scan_false. Qed.
 Print Assumptions C07_xml_close_scan_false.
 
@@ -20,3 +82,7 @@ Theorem C07_xml_err_nil_only_complete : forall objs h,
   (x_err x = eEOF /\ x_delivered x = objs) \/ (x_err x = 0%Z /\ x_closed x = false /\ x_ctx x = false).
 Proof. exact xml_err_nil_only_complete. Qed.
 Print Assumptions C07_xml_err_nil_only_complete.
+
+(* non-vacuity: a reachable cancelled state of the repaired model with one read after the cancel *)
+Example C07_witness_rac_now : rac_and = 0 /\ rac_or = 6.
+Proof. vm_compute. split; reflexivity. Qed.
